@@ -4,9 +4,13 @@
 #![allow(unused, clippy::all)]
 pub mod common;
 pub mod lin;
+pub mod conv;
+pub mod dec;
 
 pub fn registry() -> Vec<(&'static str, fn())> {
     let mut v = Vec::new();
     v.extend(lin::registry());
+    v.extend(conv::registry());
+    v.extend(dec::registry());
     v
 }
